@@ -16,6 +16,9 @@ CHECKS = {
  "C03": ("exploration", "runtime length monitors at frame, message, notation and stream level",
   "Four monitors over the real encoders/decoders: declared vs emitted body length for every generated frame and compression (incl. tracing requested on requests); EncodedLength vs bytes written for every message codec; every LengthOf*/Write* notation pair by value class (all 65 vint magnitude classes); PRNG streams of 1..16 back-to-back frames walked with DecodeFrame, DecodeRawFrame and DecodeHeader+DiscardBody through a counting reader.",
   "Frames come from the shared generator; stream sequences and vint fill-ins are sampled. " + TB, "DESIGN.md §4 C03"),
+ "C04": ("exploration", "hostile-input monitor: structure-aware mutations of valid encodings fed to every decoding entry point in isolated, memory-capped worker processes; panics recovered per call, worker deaths classified by a supervisor",
+  "Every decoding entry point (9 frame-level paths x 6 versions x {none, LZ4, Snappy}, DecodeSegment with and without LZ4, 17 message codecs x 6 versions, ReadDataType, all 23 primitive.Read* [table compared with the source tree at run time], 3 decompressors, 27 CQL value codecs x generated / untyped / universal / preferred / pre-filled destinations) receives mutants of valid encodings: every offset x width {1,2,4} set to -1, -2, 0, boundary values, truncation at every offset, bit flips, splices, random bytes, hostile length prefixes and blocks, CRC-corrected segment mutants, bytes of type A through the codec of type B; inputs up to 64 KiB (quick) / 1 MiB (thorough). A recovered panic, a fatal error that reproduces alone, or a call that does not return while burning CPU is a violation keyed by entry point, innermost library function and class. Holds on the executions observed (about 8e5 quick, 9e6 thorough).",
+  "Memory exhaustion under the address-space cap and calls that do not return while resident memory grows are a separate resource class (reported with inputs, inconclusive, not violations): the statement lists panic, nil dereference, stack overflow and non-termination. Mutants that would turn a length field into 2^17..2^31 are thinned (counted in evidence) because the library allocates what the wire says. " + TB, "DESIGN.md §4 C04"),
  "C05": ("exploration", "differential monitor across the seven partial/raw/full codec paths + re-encode fixpoint on mutated wire inputs",
   "The same bytes (plus sentinel bytes) go through DecodeFrame, DecodeRawFrame+Convert, DecodeHeader+DecodeBody/DecodeRawBody/DiscardBody (seekable and not), ConvertToRawFrame+EncodeRawFrame and EncodeHeader+EncodeBody; all results must agree and consume exactly header+declared length. Mutated wire inputs (flags byte and body bytes) that still decode must re-encode to a fixpoint.",
   "Mutants whose length fields were damaged are discarded by an allocation-free structural pre-parse (absurd lengths belong to C04); an encode refusal of a decoded mutant is counted, not judged. " + TB, "DESIGN.md §4 C05"),
